@@ -3,7 +3,7 @@
 # Confirms a seeded change in its scratch worktree /tmp/wt-<ID>, rebased onto /repo's current HEAD:
 #   demo passes without the change, fails with it; the change compiles; the existing suite passes with it.
 ID="$1"; shift; DEMO="$*"
-WT=/tmp/wt-$ID; OUT=/tmp/seeded-out/$ID/confirm.log
+WT=${WT:-/tmp/wt-$ID}; SD=${SD:-/tmp/seeded-out/$ID}; OUT=$SD/confirm.log
 HEAD=$(git -C /repo rev-parse HEAD)
 cd $WT || exit 2
 {
@@ -12,12 +12,12 @@ git checkout -q -- . 2>/dev/null; git clean -fdq src 2>/dev/null
 git checkout -q --detach $HEAD || exit 2
 echo "--- unchanged tree: build + demo (expect pass)"
 cargo build --offline 2>&1 | tail -1
-eval "$DEMO" > /tmp/seeded-out/$ID/confirm_demo_unchanged.log 2>&1; echo "demo exit (unchanged) = $?"
+eval "$DEMO" > $SD/confirm_demo_unchanged.log 2>&1; echo "demo exit (unchanged) = $?"
 git checkout -q -- . ; git clean -fdq src
 echo "--- with the change: apply + build + demo (expect fail)"
-git apply /tmp/seeded-out/$ID/patch.diff && echo "patch applies" || echo "PATCH DOES NOT APPLY"
+git apply $SD/patch.diff && echo "patch applies" || echo "PATCH DOES NOT APPLY"
 cargo build --offline 2>&1 | tail -1
-eval "$DEMO" > /tmp/seeded-out/$ID/confirm_demo_changed.log 2>&1; echo "demo exit (changed) = $?"
+eval "$DEMO" > $SD/confirm_demo_changed.log 2>&1; echo "demo exit (changed) = $?"
 git status --short | head
 echo "--- existing suite with the change (three known slow/failing perft tests skipped)"
 cargo test --offline -- --test-threads 16 --skip perft5_kiwipete --skip perft6_position_4 --skip perft7_position_3 2>&1 | grep -E "^test result|FAILED|failed" | head
